@@ -19,6 +19,7 @@ FmtUnits(f) == CASE f \in {"10x", "12x", "11n", "11x", "10t"} -> 1
                  [] f \in {"30t", "32x", "31i", "31t", "31c", "35c", "3rc"} -> 3
                  [] f \in {"45cc", "4rcc"} -> 4
                  [] f = "51l" -> 5
+                 [] OTHER -> 0            \* unused opcode: no length
 Units(op) == FmtUnits(Fmt(op))
 
 WideLit(op) == Mnem(op) \in {"const-wide/16", "const-wide/32", "const-wide", "const-wide/high16"}
